@@ -151,6 +151,7 @@ def _run_path(E, c, fnode, cls, params, canary):
             E.assume(E.spec_eval(text))
         E.heap_old = dict(E.heap)
         E.env_old = dict(env)
+        E.finding_terms = {fid: E.spec_eval(cl) for fid, cl in c.findings.items()}
         # vacuity: the precondition must be satisfiable
         if not E.feasible(z3.BoolVal(True)):
             raise Infeasible()
